@@ -24,6 +24,7 @@ import (
 	"github.com/btcsuite/btcwallet/walletdb"
 	_ "github.com/btcsuite/btcwallet/walletdb/bdb"
 
+	"verif/harness/faultdb"
 	"verif/harness/refbip32"
 )
 
@@ -133,6 +134,7 @@ type World struct {
 	Scopes    []waddrmgr.KeyScope
 	HasCustom bool
 	Synced    waddrmgr.BlockStamp
+	Fault     *faultdb.Ctl // active fault plan for read-write transactions
 	tmplKey   string
 }
 
@@ -316,8 +318,16 @@ func (w *World) Update(f func(ns walletdb.ReadWriteBucket) error) (err error) {
 		}
 	}()
 	return walletdb.Update(w.DB, func(tx walletdb.ReadWriteTx) error {
-		return f(tx.ReadWriteBucket(NS))
+		return f(w.wrap(tx.ReadWriteBucket(NS)))
 	})
+}
+
+// wrap installs the fault-injection proxy when a fault plan is active.
+func (w *World) wrap(b walletdb.ReadWriteBucket) walletdb.ReadWriteBucket {
+	if w.Fault != nil {
+		return faultdb.Wrap(b, w.Fault, "waddrmgr")
+	}
+	return b
 }
 
 // ErrRolledBack is returned by RolledBack's transaction function.
@@ -333,7 +343,7 @@ func (w *World) RolledBack(f func(ns walletdb.ReadWriteBucket) error) (err error
 	}()
 	var inner error
 	err = walletdb.Update(w.DB, func(tx walletdb.ReadWriteTx) error {
-		inner = f(tx.ReadWriteBucket(NS))
+		inner = f(w.wrap(tx.ReadWriteBucket(NS)))
 		return ErrRolledBack
 	})
 	if err != ErrRolledBack {
